@@ -5,7 +5,8 @@ from .guard import guard, MachineryError, VERIF, REPO
 from . import lean
 
 TRUSTED_BASE_COMMON = [
-    "Lean 4.33.0 kernel; axioms allowed in property theorems: propext, Classical.choice, Quot.sound (audited by #print axioms on every run)",
+    "Lean 4.33.0 kernel; axioms allowed in property theorems: propext, Classical.choice, Quot.sound (audited by #print axioms on every run); "
+    "in the thorough tier the compiled proof modules are re-checked by leanchecker (independent replay of the .olean files through the kernel)",
     "Lean compiler/runtime for the native model driver (correspondence only, not proofs)",
     "the correspondence harness (generators, canonicalisation) and the table extractor writing lean/AioModel/Generated/*.lean",
 ]
@@ -152,6 +153,7 @@ def _run(prop, tier, seed, replay, no_build, t0):
     theorems = list(getattr(mod, "THEOREMS", []))
     modules = list(getattr(mod, "LEAN_MODULES", []))
     audit_res = {}
+    leancheck_note = None
     driver_ok = True
     build_s = 0.0
     if not no_build:
@@ -171,6 +173,12 @@ def _run(prop, tier, seed, replay, no_build, t0):
                 if not ok:
                     proofs_ok = False
                     proof_notes.append(f"{t}: {detail}")
+        if ok_p and modules and tier == "thorough":
+            ok_c, det_c = lean.leanchecker(modules)
+            leancheck_note = det_c
+            if not ok_c:
+                proofs_ok = False
+                proof_notes.append("leanchecker rejected the compiled modules: " + det_c)
         gate = lean.grep_gate(lean.lean_sources_of(modules))
         if gate:
             proofs_ok = False
@@ -270,6 +278,8 @@ def _run(prop, tier, seed, replay, no_build, t0):
         "proof_notes": proof_notes,
         "lake_build_s": round(build_s, 2),
     }
+    if leancheck_note is not None:
+        cov["leanchecker"] = leancheck_note
     cov.update(ctx.extra)
     ev = {
         "property_id": prop, "tier": tier, "seed": seed, "level": "proof",
